@@ -57,6 +57,30 @@ class ApiModel(object):
             out[f.name] = self.default_field(f)
         return out
 
+    def rich(self, t):
+        """Like default, but optionals of composites are present and unions sit on their first composite arm
+        (values that own nested objects: material for aliasing)."""
+        ref = self.ref
+        r = ref.resolve(t)
+        if isinstance(r, str) or isinstance(r, S.Enum):
+            return self.default(t)
+        if isinstance(r, S.Union):
+            for a in r.arms:
+                if isinstance(ref.resolve(a.type), (S.Struct, S.Union)):
+                    return [a.name, self.rich(a.type)]
+            return self.default(t)
+        out = {}
+        for f in ref.fields(r.name):
+            if f.kind in ('counter', 'sizer'):
+                continue
+            if f.kind == 'comp':
+                out[f.name] = self.rich(f.type)
+            elif f.kind == 'opt' and isinstance(ref.resolve(f.type), (S.Struct, S.Union)):
+                out[f.name] = self.rich(f.type)
+            else:
+                out[f.name] = self.default_field(f)
+        return out
+
     def default_field(self, f):
         if f.kind in ('scalar', 'enum', 'comp'):
             return self.default(f.type)
@@ -498,6 +522,9 @@ def array_ops(model, sname, f, lst, depth, path):
             ops.append((path, 'extend', ([],)))
             ops.append((path, 'extend', (ItArg([e1, e1]),)))
             ops.append((path, 'extend', ('SELF',)))
+            e2 = model.rich(f.type)
+            if e2 != e1:
+                ops.append((path, 'extend', ([e2, e2],)))
             ops.append((path, 'extend', ([e1, 'x'],)))
             ops.append((path, 'extend', ([e1, None],)))
             ops.append((path, 'delitem', (0,)))
@@ -517,7 +544,8 @@ def array_ops(model, sname, f, lst, depth, path):
         ops += [(path, 'setitem', (0, g[0])), (path, 'setitem', (-1, g[1])), (path, 'setitem', (99, g[0])),
                 (path, 'setitem', (0, over)),
                 (path, 'setslice', (0, 1, [g[2]])), (path, 'setslice', (0, 2, [g[0]])),
-                (path, 'setslice', (None, None, [g[1]] * f.n)), (path, 'setslice', (0, 1, [over]))]
+                (path, 'setslice', (None, None, [g[1]] * f.n)), (path, 'setslice', (0, 1, [over])),
+                (path, 'setslice', (-1, None, [g[0]])), (path, 'setslice', (-1, None, [g[0], g[1]]))]
         return ops
     ops += [(path, 'append', (g[0],)), (path, 'append', (g[1],)), (path, 'append', (over,)), (path, 'append', (None,)),
             (path, 'insert', (0, g[2])), (path, 'insert', (1, g[1])), (path, 'insert', (-1, g[0])),
@@ -529,6 +557,8 @@ def array_ops(model, sname, f, lst, depth, path):
             (path, 'setslice', (0, 1, [g[0], g[1]])), (path, 'setslice', (0, 2, [])), (path, 'setslice', (1, 1, [g[2]])),
             (path, 'setslice', (None, None, [g[1], g[0], g[2], g[0]])), (path, 'setslice', (0, 1, [g[0], over])),
             (path, 'setslice', (0, 9, [g[0], g[1], g[2], g[0]])),
+            (path, 'setslice', (-1, None, [g[2], g[1], g[0]])), (path, 'setslice', (0, -1, [g[1], g[2]])),
+            (path, 'setslice', (-2, -1, [g[0]])), (path, 'delslice', (-1, None)),
             (path, 'setext', (None, None, 2, [g[2]])), (path, 'setext', (None, None, 2, [g[2], g[0]])),
             (path, 'setext', (None, None, 2, [g[2], g[0], g[1]])),
             (path, 'delitem', (0,)), (path, 'delitem', (-1,)), (path, 'delitem', (99,)),
